@@ -47,6 +47,7 @@ func init() {
 		{"C04", "native", props.C05native},
 		{"C12", "signdiff", props.C12signDiff},
 		{"C12", "operands", props.C12usesOperands},
+		{"C02", "honestlen", props.C06honest},
 		{"C06", "honestlen", props.C06honest},
 		{"C20", "honestlen", props.C06honest},
 		{"C15", "honestlen", props.C06honest},
